@@ -114,6 +114,7 @@ impl Property for C10 {
             allow_loops: false,
             outside: true,
             fifo: rng.chance(1, 10),
+            raw_byte: None,
         };
         let mut spec = gen_tree(rng, &cfg);
         if follows_inside {
